@@ -1,4 +1,5 @@
 import Crv.Ocsp
+import Crv.Proofs.Skeleton
 import Crv.Mode
 import Crv.Generated.Ocsp
 import Crv.Generated.Mode
@@ -184,5 +185,10 @@ example : (lookup ocspFacts Vx ⟨false, 0⟩ certX [ca1] answerX 5 []).result =
 example : (lookup ocspFacts Vx ⟨true, 0⟩ { certX with servers := [("ldap://x/".toList)] } [ca1] answerX 5 []).result = .good := by
   decide
 end Example
+
+/-- The hand-written `Ocsp` model this property rests on was transcribed from exactly these sources: the fingerprints are
+recomputed from /repo on every run (tools/extract/skeleton.go), so any change to one of the functions breaks this obligation. -/
+theorem ocsp_sources_as_transcribed : Crv.Generated.skeletonOcsp = Crv.Skeleton.expectedOcsp :=
+  Crv.Skeleton.ocsp_sources_as_transcribed
 
 end Crv.Props.C02
